@@ -4,6 +4,7 @@
 set -u
 D=/verif/seeded/$1; shift
 if [ -n "$(git -C /repo status --porcelain --untracked-files=no)" ]; then echo "/repo not clean"; exit 2; fi
+EV=$(mktemp -d /dev/shm/seeded-ev.XXXXXX); cp -a /verif/evidence/. "$EV"/
 git -C /repo apply "$D/patch.diff" || { echo "patch does not apply"; exit 2; }
 for id in "$@"; do
     /verif/check "$id" > "/tmp/seeded-$id.out" 2>&1; rc=$?
@@ -11,4 +12,6 @@ for id in "$@"; do
 done
 git -C /repo checkout -- .
 rm -rf /verif/replays/*
+# evidence written while the change was applied does not describe /repo: put the previous files back
+rm -rf /verif/evidence; mkdir -p /verif/evidence; cp -a "$EV"/. /verif/evidence/; rm -rf "$EV"
 (cd /verif/harness && cargo build --release --offline >/dev/null 2>&1)
